@@ -9,6 +9,7 @@ import (
 	"sort"
 	"strconv"
 	"strings"
+	"sync"
 	"time"
 
 	. "verifharness/core"
@@ -16,17 +17,32 @@ import (
 	pg "github.com/andydunstall/piko/pkg/gossip"
 )
 
-type recWatcher struct{ ev []string }
-
-func (w *recWatcher) OnJoin(id string)        { w.ev = append(w.ev, "join:"+Hx(id)) }
-func (w *recWatcher) OnLeave(id string)       { w.ev = append(w.ev, "leave:"+Hx(id)) }
-func (w *recWatcher) OnReachable(id string)   { w.ev = append(w.ev, "reach:"+Hx(id)) }
-func (w *recWatcher) OnUnreachable(id string) { w.ev = append(w.ev, "unreach:"+Hx(id)) }
-func (w *recWatcher) OnUpsertKey(id, k, v string) {
-	w.ev = append(w.ev, "up:"+Hx(id)+":"+Hx(k)+"="+Hx(v))
+// recWatcher records the notifications in the order they are delivered.  `probe`, when set, is
+// run once from inside the next notification (see op `pexpire`).
+type recWatcher struct {
+	mu    sync.Mutex
+	ev    []string
+	probe func()
 }
-func (w *recWatcher) OnDeleteKey(id, k string) { w.ev = append(w.ev, "del:"+Hx(id)+":"+Hx(k)) }
-func (w *recWatcher) OnExpired(id string)      { w.ev = append(w.ev, "exp:"+Hx(id)) }
+
+func (w *recWatcher) add(s string) {
+	w.mu.Lock()
+	w.ev = append(w.ev, s)
+	p := w.probe
+	w.probe = nil
+	w.mu.Unlock()
+	if p != nil {
+		p()
+	}
+}
+
+func (w *recWatcher) OnJoin(id string)            { w.add("join:" + Hx(id)) }
+func (w *recWatcher) OnLeave(id string)           { w.add("leave:" + Hx(id)) }
+func (w *recWatcher) OnReachable(id string)       { w.add("reach:" + Hx(id)) }
+func (w *recWatcher) OnUnreachable(id string)     { w.add("unreach:" + Hx(id)) }
+func (w *recWatcher) OnUpsertKey(id, k, v string) { w.add("up:" + Hx(id) + ":" + Hx(k) + "=" + Hx(v)) }
+func (w *recWatcher) OnDeleteKey(id, k string)    { w.add("del:" + Hx(id) + ":" + Hx(k)) }
+func (w *recWatcher) OnExpired(id string)         { w.add("exp:" + Hx(id)) }
 
 type scriptFD struct{ suspected map[string]bool }
 
@@ -50,13 +66,13 @@ type gnode struct {
 	w        *recWatcher
 	fd       *scriptFD
 	// oracle state
-	ref      map[string]string   // C17: live own keys
-	hist     map[pg.Entry]bool   // C02: every entry this owner ever held
-	fold     map[string]*foldNode // C14: fold of watcher events
-	expired  map[string]bool     // C11: nodes this observer has expired
-	lastVer  map[string]uint64   // C02: last reported version per remembered node
-	wasLeft  map[string]bool     // C11: left flag seen per remembered node
-	dead     bool                // left or crashed
+	ref     map[string]string    // C17: live own keys
+	hist    map[pg.Entry]bool    // C02: every entry this owner ever held
+	fold    map[string]*foldNode // C14: fold of watcher events
+	expired map[string]bool      // C11: nodes this observer has expired
+	lastVer map[string]uint64    // C02: last reported version per remembered node
+	wasLeft map[string]bool      // C11: left flag seen per remembered node
+	dead    bool                 // left or crashed
 }
 
 type packet struct {
@@ -67,11 +83,11 @@ type packet struct {
 }
 
 type engine struct {
-	nodes   map[string]*gnode
-	order   []string
-	pool    []packet
-	anyExp  bool // some observer expired some node in this case (C02's quantifier has no expiry)
-	lastItems int // items carried by the last delivermax reply (for the generator)
+	nodes     map[string]*gnode
+	order     []string
+	pool      []packet
+	anyExp    bool // some observer expired some node in this case (C02's quantifier has no expiry)
+	lastItems int  // items carried by the last delivermax reply (for the generator)
 }
 
 // New returns the engine.
@@ -569,12 +585,37 @@ func (e *engine) Step(ws []string, o *Out) string {
 		}
 		e.oracleLiveness(g, o)
 		return e.finish(g, ws, o, true, nil, false)
-	case "expire":
+	case "expire", "pexpire":
 		g, ok := e.nodes[Unhx(ws[1])]
 		if !ok {
 			return "err no-node"
 		}
 		d := Atoi(ws[2])
+		var probeDone chan struct{}
+		if ws[0] == "pexpire" {
+			// pexpire <n> <d> <src>: the expiry sweep with a digest of <src> arriving on another
+			// goroutine WHILE the first notification of the sweep is being delivered.  State change
+			// and notification are one atomic step (the watcher is called with the state mutex
+			// held), so the digest can only take effect after the sweep: the notifications, in the
+			// order delivered, still fold to the state (C14).
+			src, ok := e.nodes[Unhx(ws[3])]
+			if !ok || src == g {
+				return "err no-node"
+			}
+			dg := src.st.Digest()
+			probeDone = make(chan struct{})
+			triggered := false
+			g.w.probe = func() {
+				triggered = true
+				go func() { g.st.ApplyDigest(dg); close(probeDone) }()
+				select {
+				case <-probeDone:
+				case <-time.After(30 * time.Millisecond):
+				}
+			}
+			_ = triggered
+			o.Count("pexpire")
+		}
 		// expected: exactly the remembered nodes with an expiry set, when d is beyond the expiry period
 		var want []string
 		for _, m := range g.st.Nodes() {
@@ -583,6 +624,22 @@ func (e *engine) Step(ws []string, o *Out) string {
 			}
 		}
 		g.st.RemoveExpiredAt(time.Now().Add(time.Duration(d) * time.Second))
+		if ws[0] == "pexpire" {
+			g.w.mu.Lock()
+			pending := g.w.probe != nil
+			g.w.probe = nil
+			g.w.mu.Unlock()
+			if pending {
+				// the sweep notified nothing: the digest simply arrives afterwards
+				g.st.ApplyDigest(e.nodes[Unhx(ws[3])].st.Digest())
+			} else {
+				select {
+				case <-probeDone:
+				case <-time.After(10 * time.Second):
+					o.Fail("ANY", "hang", "ApplyDigest did not return after RemoveExpiredAt")
+				}
+			}
+		}
 		var got []string
 		for _, x := range g.w.ev {
 			if strings.HasPrefix(x, "exp:") {
@@ -600,7 +657,7 @@ func (e *engine) Step(ws []string, o *Out) string {
 			o.Fail("C11", "expiry-set", fmt.Sprintf("want=%q got=%q", want, got))
 		}
 		for _, id := range got {
-			if _, ok := g.st.Node(id); ok {
+			if _, ok := g.st.Node(id); ok && ws[0] == "expire" {
 				o.Fail("C11", "expired-but-remembered", Hx(id))
 			}
 		}
@@ -1137,7 +1194,16 @@ func (e *engine) Gen(r *rand.Rand, n int, tier string, w *bufio.Writer) {
 					}
 					emit("live %s %s", Hx(id), s)
 				default:
-					emit("expire %s %d", Hx(id), Pick(r, []int{-3600, 30, 90, 90, 600}))
+					if len(al) > 1 && r.Intn(3) == 0 {
+						// the sweep with a digest of another node arriving concurrently
+						src := Pick(r, al)
+						if src == id {
+							src = al[(indexOf(al, id)+1)%len(al)]
+						}
+						emit("pexpire %s %d %s", Hx(id), Pick(r, []int{90, 90, 600, 30}), Hx(src))
+					} else {
+						emit("expire %s %d", Hx(id), Pick(r, []int{-3600, 30, 90, 90, 600}))
+					}
 				}
 			}
 			// a pull whose reply is cut by a REAL byte limit (exercises encodeDelta's own loop)
@@ -1206,3 +1272,12 @@ func B2i(b bool) int {
 type discard struct{}
 
 func (discard) Write(p []byte) (int, error) { return len(p), nil }
+
+func indexOf(xs []string, x string) int {
+	for i, y := range xs {
+		if y == x {
+			return i
+		}
+	}
+	return 0
+}
